@@ -348,6 +348,7 @@ class Ref:
         saved = dict(self.tv_bind)
         if type_args is not None and df.get("generic"):
             self.tv_bind.update(dict(zip(df["generic"], type_args)))
+        self.tv_bind.update(self.class_tv_bind(df))
         self._cls_stack.append(name)
         try:
             fields = self.fam.dc_fields(name)
@@ -380,6 +381,17 @@ class Ref:
         finally:
             self.tv_bind = saved
             self._cls_stack.pop()
+
+    def class_tv_bind(self, df):
+        """TypeVar bindings a class fixes by deriving from a specialised generic base (`class S(G[date])`): the def
+        carries them as "tv_bind"; inherited ones apply too."""
+        out = {}
+        for b in df.get("bases", ()):
+            bd = self.fam.defs.get(b.split("[")[0])
+            if bd and bd.get("k") == "dc":
+                out.update(self.class_tv_bind(bd))
+        out.update(df.get("tv_bind") or {})
+        return out
 
     @staticmethod
     def _field_ctx(ctx, f, direction):
@@ -781,6 +793,7 @@ class Ref:
         saved = dict(self.tv_bind)
         if type_args is not None and df.get("generic"):
             self.tv_bind.update(dict(zip(df["generic"], type_args)))
+        self.tv_bind.update(self.class_tv_bind(df))
         self._cls_stack.append(name)
         try:
             if fields and not hasattr(d, "get"):
@@ -1059,6 +1072,7 @@ class Ref:
         saved = dict(self.tv_bind)
         if type_args is not None and df.get("generic"):
             self.tv_bind.update(dict(zip(df["generic"], type_args)))
+        self.tv_bind.update(self.class_tv_bind(df))
         self._cls_stack.append(t[1])
         try:
             for f in self.fam.dc_fields(t[1]):
